@@ -623,6 +623,9 @@ func isOnceBody(w *World, fn *ssa.Function) bool {
 				if mc, isMC := c.Call.Args[1].(*ssa.MakeClosure); isMC && mc.Fn == ssa.Value(fn) {
 					ok = true
 				}
+				if c.Call.Args[1] == ssa.Value(fn) { // a closure without captured variables
+					ok = true
+				}
 			}
 		}
 	})
